@@ -267,7 +267,16 @@ def make_world(env, rng, kind, lb_params=None, open_delay=None, get_servers_dela
         w.out[req['channel']] -= 1
       req['deliveries'].append((w.step, env.now, msg))
       env.emit('stack.deliver', rid=req['id'], err=type(msg.error).__name__ if msg.error else None)
+      # a sink above the balancer may react to a completion at once (chained call, retry)
+      if w.on_delivery is not None and w.dispatching is None and not w.in_chain and len(req['deliveries']) == 1:
+        w.in_chain = True
+        try:
+          w.on_delivery(req)
+        finally:
+          w.in_chain = False
   w.terminator = Terminator()
+  w.on_delivery = None
+  w.in_chain = False
 
   def dispatch(timeout=None):
     """Synchronous dispatch through ClientTimeoutSink -> balancer."""
